@@ -252,10 +252,12 @@ type C09Cell struct {
 	Instances int      `json:"instances"`
 	Gun       string   `json:"gun"` // http | connect
 	RespSize  int      `json:"resp_size,omitempty"` // size of the target's response body (0: 2 bytes)
+	Passes    int      `json:"passes,omitempty"`    // 0: one pass
+	Preload   bool     `json:"preload,omitempty"`
 }
 
 func (c C09Cell) Name() string {
-	return fmt.Sprintf("%s|option=%v|ssl=%v|nokeep=%v|instances=%d|gun=%s|resp=%d", c.File.Name(), c.Option, c.SSL, c.NoKeep, c.Instances, c.Gun, c.RespSize)
+	return fmt.Sprintf("%s|option=%v|ssl=%v|nokeep=%v|instances=%d|gun=%s|resp=%d|passes=%d|preload=%v", c.File.Name(), c.Option, c.SSL, c.NoKeep, c.Instances, c.Gun, c.RespSize, c.Passes, c.Preload)
 }
 
 var formatType = map[string]string{"uri": "uri", "uripost": "uripost", "raw": "raw", "jsonline": "http/json"}
@@ -291,6 +293,10 @@ func wantWire(c C09Cell, targetHost string) []Want {
 		}
 		ws[i].Headers = hdrString(h)
 	}
+	one := ws
+	for p := 1; p < c.Passes; p++ {
+		ws = append(ws, one...) // every pass sends the file again, unchanged
+	}
 	return ws
 }
 
@@ -311,6 +317,12 @@ func runC09Cell(c C09Cell) (verr error) {
 	data := render(c.File.Format, c.File.Items, c.File.Layout)
 	_ = afero.WriteFile(memfs, "/ammo", data, 0o644)
 	conf := map[string]any{"type": formatType[c.File.Format], "file": "/ammo", "passes": 1}
+	if c.Passes > 1 {
+		conf["passes"] = c.Passes
+	}
+	if c.Preload {
+		conf["preload"] = true
+	}
 	if len(c.Option) > 0 {
 		l := make([]any, len(c.Option))
 		for i, o := range c.Option {
@@ -521,6 +533,15 @@ func runC09(spec *hutil.Spec, out *hutil.Out) {
 								continue
 							}
 							cells = append(cells, C09Cell{File: f, Option: opt, SSL: ssl, NoKeep: nk, Instances: inst, Gun: "http"})
+							if !nk && !ssl && inst == 1 && oi < 2 {
+								// the same file sent again (second pass), streamed and preloaded
+								for _, pp := range []struct {
+									n   int
+									pre bool
+								}{{2, false}, {1, true}, {3, true}} {
+									cells = append(cells, C09Cell{File: f, Option: opt, Instances: inst, Gun: "http", Passes: pp.n, Preload: pp.pre})
+								}
+							}
 							if bigCount++; !nk && oi == 0 && entries(f.Items) >= 2 && bigCount%11 == 0 {
 								// a target with large responses must not cost the instance its connection
 								cells = append(cells, C09Cell{File: f, Option: opt, SSL: ssl, NoKeep: nk, Instances: inst, Gun: "http", RespSize: 300 << 10})
